@@ -21,7 +21,7 @@
 //! unless `C06_PARSE_STRICT=1`.
 
 use crate::generate::Case;
-use roto::verif_hooks::c06::{char_flags, lex_all, literal_verdict, parse_probe};
+use roto::verif_hooks::c06::{char_flags, lex_all, literal_verdict_rel as literal_verdict, parse_probe};
 use rotov_harness::Report;
 use rotov_harness::driver::{Driver, hex};
 use serde_json::json;
